@@ -491,3 +491,28 @@ Proof.
       * rewrite IH. split; [intro H; right; exact H|intros [H|H]; [congruence|exact H]].
   - split; [exact HD|reflexivity].
 Qed.
+
+(* ======================= the hash backing discharges the assumption ======================= *)
+From Ekit Require Import HashModel HashProof.
+
+Lemma linked_hashmap_lemma : forall (V : Type) (vzero : V) code eqb,
+  eqb_equivalence eqb -> hash_consistent code eqb ->
+  forall ops,
+    snd (run (lstep vzero (hash_backing 0%nat code eqb)) (linit vzero hinit) ops)
+    = snd (run (astep vzero eqb) [] ops).
+Proof.
+  intros V vzero code eqb He Hc ops.
+  apply (linkedmap_refines_lemma V vzero _ (hash_backing 0%nat code eqb) eqb (hR nat 0%nat code eqb)
+           (hash_backing_refines_lemma nat 0%nat code eqb He Hc) hinit (hR_init nat 0%nat code eqb)).
+Qed.
+
+Lemma multi_hashmap_lemma : forall (V : Type) code eqb,
+  eqb_equivalence eqb -> hash_consistent code eqb ->
+  forall ops,
+    Forall2 (@mmout_equiv V) (snd (run (mmstep (hash_backing [] code eqb)) hinit ops))
+                             (snd (run (mm_spec_step eqb) [] ops)).
+Proof.
+  intros V code eqb He Hc ops.
+  apply (multimap_refines_lemma V _ (hash_backing [] code eqb) eqb (hR (list V) [] code eqb)
+           (hash_backing_refines_lemma (list V) [] code eqb He Hc) hinit (hR_init (list V) [] code eqb)).
+Qed.
